@@ -67,7 +67,7 @@ theorem compileFn_gfrag_run (f2 : Nat) (fd : FnDef) (cs : CState) (bsp : Span) (
     (oe : Option Expr)
     (hbody : fd.body = .mk bsp bty stmts oe) (hparams : ∀ p ∈ fd.params, p.isSingleton = false)
     (hann : fd.hasAnnotation = false) (hloops : cs.loops = [])
-    (hs : Frag.okFSs fr false true stmts = true) (he : ∀ e, oe = some e → Frag.okGE e = true)
+    (hs : Frag.okFSs fr false true stmts = true) (he : ∀ e, oe = some e → Frag.okE fr e = true)
     (hd : Frag.cdSs stmts ≤ f2) (hde : ∀ e, oe = some e → Frag.cdE e ≤ f2)
     (hws : Frag.wsGSs cs.currModule fd.name (φOf (fnBase cs fd)) [] stmts (partsOf cs fd stmts oe).envB = true)
     (hwe : ∀ e, oe = some e → Frag.wsGE (partsOf cs fd stmts oe).envS.scopes (φOf (fnBase cs fd)) e = true) :
@@ -134,7 +134,7 @@ theorem compileFn_gfrag_run (f2 : Nat) (fd : FnDef) (cs : CState) (bsp : Span) (
       rw [h1, h2]
       simp only [List.append_assoc, List.nil_append, List.append_nil]
     | some e =>
-      have hE := (compile_gexpr f2).1 e (fnBase cs fd) (he e rfl) (hde e rfl) cs.loops
+      have hE := (compile_gexpr fr f2).1 e (fnBase cs fd) (he e rfl) (hde e rfl) cs.loops
         ([] ++ [(.addMp 0, fd.sp)] ++ (partsOf cs fd stmts (some e)).pcode ++ (partsOf cs fd stmts (some e)).scode)
         (partsOf cs fd stmts (some e)).envS (hwe e rfl)
       simp only []
@@ -236,7 +236,7 @@ theorem compileFn_gfrag (f2 : Nat) (fd : FnDef) (cs : CState) (bsp : Span) (bty 
     (oe : Option Expr)
     (hbody : fd.body = .mk bsp bty stmts oe) (hparams : ∀ p ∈ fd.params, p.isSingleton = false)
     (hann : fd.hasAnnotation = false) (hloops : cs.loops = [])
-    (hs : Frag.okFSs fr false true stmts = true) (he : ∀ e, oe = some e → Frag.okGE e = true)
+    (hs : Frag.okFSs fr false true stmts = true) (he : ∀ e, oe = some e → Frag.okE fr e = true)
     (hd : Frag.cdSs stmts ≤ f2) (hde : ∀ e, oe = some e → Frag.cdE e ≤ f2)
     (hws : Frag.wsGSs cs.currModule fd.name (φOf (fnBase cs fd)) [] stmts (partsOf cs fd stmts oe).envB = true)
     (hwe : ∀ e, oe = some e → Frag.wsGE (partsOf cs fd stmts oe).envS.scopes (φOf (fnBase cs fd)) e = true) :
